@@ -3,7 +3,7 @@ import itertools
 
 import gen_lang
 from props import c02
-from vlib import Case, lang_lines
+from vlib import Case, lang_lines, vmrun_lines
 
 RULE = ("op `eval`: (1) exhaustive scrutinee x pattern tables over small integer/char/byte/string/bool domains incl. range boundaries (a..b excludes b, a..=b includes it), "
         "first-matching-arm and no-arm-matches-null cases, every pair of pattern kinds for the rejection rule; (2) if/else-if/else chains over the truthiness representatives; "
@@ -178,4 +178,8 @@ def cases(ctx):
         progs.append(("generated", s))
     srcs = [s for _, s in progs]
     lines = lang_lines(ctx, srcs)
-    return [Case(l, (t,), extra={"src": s}) for l, (t, s) in zip(lines, progs)]
+    out = [Case(l, (t,), extra={"src": s}) for l, (t, s) in zip(lines, progs)]
+    # translation validation: Bcv (the verified bytecode verifier) on the real bytecode of every program; the VM model runs it
+    vl = vmrun_lines(ctx, srcs)
+    out += [Case(l, (t, "vm"), extra={"src": s}) for l, (t, s) in zip(vl, progs)]
+    return out
